@@ -504,6 +504,11 @@ func (b *teletextPageBuffer) dump(lastTime time.Time) (ps []*teletextPage) {
 
 // TODO Add tests
 func (b *teletextPageBuffer) process(d *astits.PESData, t time.Time) (ps []*teletextPage) {
+	// No data
+	if len(d.Data) == 0 {
+		return
+	}
+
 	// Data identifier
 	var offset int
 	dataIdentifier := uint8(d.Data[offset])
@@ -515,7 +520,7 @@ func (b *teletextPageBuffer) process(d *astits.PESData, t time.Time) (ps []*tele
 	}
 
 	// Loop through data units
-	for offset < len(d.Data) {
+	for offset+2 <= len(d.Data) {
 		// ID
 		id := uint8(d.Data[offset])
 		offset += 1
@@ -547,6 +552,11 @@ func (b *teletextPageBuffer) process(d *astits.PESData, t time.Time) (ps []*tele
 func (b *teletextPageBuffer) parseDataUnit(i []byte, id uint8, t time.Time) {
 	// Check id
 	if id != teletextPESDataUnitIDEBUSubtitleData {
+		return
+	}
+
+	// Data unit is too short to contain a teletext packet address
+	if len(i) < 4 {
 		return
 	}
 
@@ -587,6 +597,11 @@ func (b *teletextPageBuffer) parsePacket(i []byte, magazineNumber, packetNumber 
 	} else if b.receiving && magazineNumber == b.magazineNumber && (packetNumber >= 1 && packetNumber <= 25) {
 		b.parsePacketData(i, packetNumber)
 	} else {
+		// Packet is too short
+		if len(i) < 1 {
+			return
+		}
+
 		// Designation code
 		designationCode, ok := astikit.ByteHamming84Decode(i[0])
 		if !ok {
@@ -608,6 +623,11 @@ func (b *teletextPageBuffer) parsePacket(i []byte, magazineNumber, packetNumber 
 
 // TODO Add tests
 func (b *teletextPageBuffer) parsePacketHeader(i []byte, magazineNumber uint8, t time.Time) (transmissionDone bool) {
+	// Packet is too short
+	if len(i) < 8 {
+		return
+	}
+
 	// Page number units
 	pageNumberUnits, ok := astikit.ByteHamming84Decode(i[0])
 	if !ok {
@@ -677,6 +697,11 @@ func (b *teletextPageBuffer) parsePacketHeader(i []byte, magazineNumber uint8, t
 
 // TODO Add tests
 func (b *teletextPageBuffer) parsePacketData(i []byte, packetNumber uint8) {
+	// Packet is too short
+	if len(i) < 40 {
+		return
+	}
+
 	// Make sure the map is initialized
 	if _, ok := b.currentPage.data[packetNumber]; !ok {
 		b.currentPage.data[packetNumber] = make([]byte, 40)
@@ -697,6 +722,11 @@ func (b *teletextPageBuffer) parsePacketData(i []byte, packetNumber uint8) {
 func (b *teletextPageBuffer) parsePacket28And29(i []byte, packetNumber, designationCode uint8) {
 	// Invalid designation code
 	if designationCode != 0 && designationCode != 4 {
+		return
+	}
+
+	// Packet is too short
+	if len(i) < 3 {
 		return
 	}
 
